@@ -183,6 +183,10 @@ def run_robust(rng, obs):
     weighted = rng.random() < 0.5
     w = [rng.choice([0.5, 1.0, 2.0]) for _ in range(n)] if weighted else None
     which = rng.choice(['impose_median', 'impose_mad', 'impose_tmean', 'impose_tvariance', 'impose_tstd'])
+    if which == 'impose_mad' and weighted and n % 2 == 0:
+        # mystic's weighted median of an even-sized sample is the midpoint of two points, whose absolute deviations then tie
+        # exactly; which of the tied deviations sorts first (and so which weight counts) is decided by rounding: not a defined input
+        x = x[:-1]; w = w[:-1]; n -= 1
     obs.desc = {'f': which, 'x': x, 'w': w}
     t = rng.choice([1.0, 4.0, 0.5]) if which != 'impose_median' and which != 'impose_tmean' else rng.choice([0.0, -3.0, 12.0])
     obs.desc['t'] = t
@@ -204,6 +208,12 @@ def run_robust(rng, obs):
     else:
         k = rng.choice([0, 10, 20, (10, 20)])
         clip = rng.choice([False, True])
+        # trimming is only well defined (continuous in the data) when a whole number of equally weighted points is cut:
+        # weighted samples are trimmed with k=0, unweighted ones with k*n/100 integral
+        if weighted: k = 0
+        else:
+            ks = k if isinstance(k, tuple) else (k, k)
+            if any((kk * n) % 100 for kk in ks): k = 0 if n % 5 else 20
         obs.desc.update({'k': k, 'clip': clip})
         if which == 'impose_tmean':
             y = mm.impose_tmean(t, list(x), w, k=k, clip=clip)
